@@ -733,4 +733,62 @@ theorem sameSet_refl (l : List WEntry) : sameSet l l = true := by
   intro e he
   simpa using he
 
+/-! ### `preexec`, `lastW` -/
+
+/-- what `preexec` returns, in terms of the final context of the run over the live reader -/
+theorem preexec_eq {bks : List Bucket} {fuel : Nat} {db : DB} {p : Prog} {pre : Pre}
+    (h : preexec bks fuel db p = some pre) :
+    ∃ x, exec bks db.reader p fuel Ctx.init = (x, pre.outcome) ∧ pre.outcome ≠ .error ∧
+      pre.kin = rsetOf bks x.sb ∧ pre.kout = wsetOf bks x.sb ∧ pre.cx = x.m.xf ∧ pre.ev = x.m.ev ∧
+      pre.used = x.m.used ∧ pre.peak = x.m.peak := by
+  unfold preexec at h
+  generalize hx : exec bks db.reader p fuel Ctx.init = res at h
+  obtain ⟨x, o⟩ := res
+  cases o with
+  | error => simp at h
+  | ok =>
+    simp only [Option.some.injEq] at h
+    subst h
+    exact ⟨x, rfl, by simp, rfl, rfl, rfl, rfl, rfl, rfl⟩
+  | failed =>
+    simp only [Option.some.injEq] at h
+    subst h
+    exact ⟨x, rfl, by simp, rfl, rfl, rfl, rfl, rfl, rfl⟩
+
+
+theorem lastW_none (b : Bucket) (k : Key) : ∀ (l : List WEntry) (off : Nat),
+    (∀ w ∈ l, ¬ (w.1 = b ∧ w.2.1 = k)) → lastW b k l off = none := by
+  intro l
+  induction l with
+  | nil => intro _ _; rfl
+  | cons e rest ih =>
+    intro off h
+    simp only [lastW]
+    rw [ih (off + 1) (fun w hw => h w (List.mem_cons_of_mem _ hw))]
+    simp [h e (List.mem_cons_self ..)]
+
+theorem lastW_some (b : Bucket) (k : Key) : ∀ (l : List WEntry) (off : Nat),
+    (∃ w ∈ l, w.1 = b ∧ w.2.1 = k) → ∃ o v, lastW b k l off = some (o, v) ∧ off ≤ o := by
+  intro l
+  induction l with
+  | nil => intro _ h; obtain ⟨w, hw, _⟩ := h; simp at hw
+  | cons e rest ih =>
+    intro off h
+    simp only [lastW]
+    cases hl : lastW b k rest (off + 1) with
+    | some x =>
+      by_cases hr : ∃ w ∈ rest, w.1 = b ∧ w.2.1 = k
+      · obtain ⟨o, v, e1, e2⟩ := ih (off + 1) hr
+        rw [hl] at e1
+        exact ⟨o, v, by rw [← Option.some.inj e1], by omega⟩
+      · have := lastW_none b k rest (off + 1) (fun w hw hc => hr ⟨w, hw, hc⟩)
+        rw [this] at hl; simp at hl
+    | none =>
+      obtain ⟨w, hw, hc⟩ := h
+      rcases List.mem_cons.mp hw with rfl | hw
+      · exact ⟨off, w.2.2, by simp [hc], Nat.le_refl _⟩
+      · obtain ⟨o, v, e1, _⟩ := ih (off + 1) ⟨w, hw, hc⟩
+        rw [hl] at e1; simp at e1
+
+
 end XV.Contract
